@@ -6,14 +6,17 @@
   closed) and "always finishes" as deadlock freedom: `C09_no_deadlock_partial` — in every reachable
   state of the two-endpoint system in which no internal event is enabled any more and termination was
   requested, both endpoints have closed (keepalive-free runs; with keepalives the armed timers are what
-  is left enabled, see C14). A bound on the number of steps is not proved; the implementation-side
-  monitor runs every generated schedule to quiescence within a fixed event budget.
+  is left enabled, see C14). The bound on the number of steps is `C09_bounded_steps`: every enabled
+  internal event strictly lowers the variant `Var.mu` (Lemmas/TcpclVariant*.lean), so from any reachable
+  state at most `Var.mu s` internal events happen before nothing is enabled any more, and then
+  `C09_stuck_closed` applies; `C09_always_finishes` puts the two together.
 -/
 import DtnVerif.Lemmas.TcpclSys
 import DtnVerif.Lemmas.TcpclKInv
 import DtnVerif.Lemmas.TcpclWake
 import DtnVerif.Lemmas.TcpclAgent
 import DtnVerif.Lemmas.TcpclQuietSys
+import DtnVerif.Lemmas.TcpclVariantSys
 namespace DtnVerif
 namespace Tcpcl
 
@@ -300,6 +303,205 @@ example : let s := runSys (initSys Example.cfgA Example.cfgB) sched
 example : let s := runSys (initSys Example.cfgA Example.cfgB) (sched.take (sched.length - 3))
     s.a.closed = false ∧ s.b.closed = true ∧ s.toA ≠ [] := by decide +kernel
 end ExampleTerm
+
+/-! ### always finishes: a bound on the number of steps -/
+
+theorem runSys_append (s : Sys) (l1 l2 : List SysEv) : runSys s (l1 ++ l2) = runSys (runSys s l1) l2 := by
+  simp [runSys, List.foldl_append]
+
+/-- **Bounded number of steps.** After any schedule `sch` (user calls, timers, deliveries, anything),
+    let only internal events happen — `_process_queue` idle sources firing, TX callbacks in which the
+    socket takes at least one octet, deliveries of octets in flight, end-of-stream — each enabled when
+    it happens (`Var.EnabledRun`). Such a continuation is never longer than the variant `Var.mu` of
+    the state it starts from, and every one of its events lowers the variant by at least one. No user
+    action and no timer is needed for that; the only internal steps not counted are a TX callback which
+    the socket refuses (`pump 0`) and the busy-waiting idle source of an endpoint whose session is not
+    established yet — neither changes anything but the `pqPend`/`txIdle` bookkeeping flags.
+    (One side has to be the active one: two passive endpoints never send anything.) -/
+theorem C09_bounded_steps (cfgA cfgB : Cfg) (sch int : List SysEv)
+    (a1 : 0 < cfgA.segInit) (a2 : cfgA.privExt = false) (a3 : 0 < cfgA.segMru)
+    (b1 : 0 < cfgB.segInit) (b2 : cfgB.privExt = false) (b3 : 0 < cfgB.segMru)
+    (hpas : ¬ (cfgA.passive = true ∧ cfgB.passive = true))
+    (hwf : ∀ pre, pre <+: sch ++ int → SysWF (runSys (initSys cfgA cfgB) pre))
+    (hs : ∀ ev ∈ sch, ev.sendOK)
+    (hen : Var.EnabledRun (runSys (initSys cfgA cfgB) sch) int) :
+    int.length + Var.mu (runSys (initSys cfgA cfgB) (sch ++ int)) ≤ Var.mu (runSys (initSys cfgA cfgB) sch) := by
+  have hi : SysInv (runSys (initSys cfgA cfgB) sch) :=
+    sysInv_run sch _ (sysInv_init cfgA cfgB a1 a2 a3 b1 b2 b3)
+      (fun pre hpre => hwf pre (List.IsPrefix.trans hpre (List.prefix_append _ _))) hs
+  rw [runSys_append]
+  refine Var.bounded_run int _ hi ?_ ?_ hen
+  · intro pre hpre
+    rw [← runSys_append]
+    exact hwf _ (by
+      obtain ⟨t, ht⟩ := hpre
+      exact ⟨t, by rw [← ht, List.append_assoc]⟩)
+  · obtain ⟨c1, c2⟩ := Var.cfg_runSys sch (initSys cfgA cfgB)
+    obtain ⟨d1, d2⟩ := Var.cfg_initSys cfgA cfgB
+    rw [c1, c2, d1, d2]; exact hpas
+
+/-- **When nothing internal is enabled any more, a session in termination is closed on both sides.**
+    `C09_no_deadlock_partial` with the quiescence premise replaced by `Var.Stuck` (no event of
+    `Var.Enabled` can happen), which is what a run counted by `C09_bounded_steps` ends in. -/
+theorem C09_stuck_closed (cfgA cfgB : Cfg) (sch : List SysEv)
+    (a1 : 0 < cfgA.segInit) (a2 : cfgA.privExt = false) (a3 : 0 < cfgA.segMru)
+    (b1 : 0 < cfgB.segInit) (b2 : cfgB.privExt = false) (b3 : 0 < cfgB.segMru)
+    (hwf : ∀ pre, pre <+: sch → SysWF (runSys (initSys cfgA cfgB) pre))
+    (hs : ∀ ev ∈ sch, ev.sendOK) :
+    let s := runSys (initSys cfgA cfgB) sch
+    Var.Stuck s → (s.a.inTerm = true ∨ s.b.inTerm = true) →
+    (∀ m ∈ s.a.emitted, m ≠ .keepalive) → (∀ m ∈ s.b.emitted, m ≠ .keepalive) →
+    s.a.closed = true ∧ s.b.closed = true := by
+  intro s hst hterm nokaA nokaB
+  obtain ⟨ha, hb⟩ := epAll_reachable cfgA cfgB sch a1 a2 a3 b1 b2 b3 hwf hs
+  have hi : SysInv s := sysInv_run sch _ (sysInv_init cfgA cfgB a1 a2 a3 b1 b2 b3) hwf hs
+  have hw : SysWF s := hwf sch (List.prefix_refl _)
+  -- what being stuck means, event by event
+  have sPumpA : s.a.closed = true ∨ s.a.txSrc = 0 := by
+    have := hst (.atA (.pump 1))
+    simp only [Var.Enabled] at this
+    cases hc : s.a.closed
+    · right
+      cases hn : s.a.txSrc with
+      | zero => rfl
+      | succ k => exact absurd ⟨Nat.le_refl 1, hc, by omega⟩ this
+    · left; rfl
+  have sPumpB : s.b.closed = true ∨ s.b.txSrc = 0 := by
+    have := hst (.atB (.pump 1))
+    simp only [Var.Enabled] at this
+    cases hc : s.b.closed
+    · right
+      cases hn : s.b.txSrc with
+      | zero => rfl
+      | succ k => exact absurd ⟨Nat.le_refl 1, hc, by omega⟩ this
+    · left; rfl
+  have sDelB : s.b.closed = true ∨ s.toB = [] := by
+    have := hst (.deliverB s.toB.length)
+    simp only [Var.Enabled, List.take_length] at this
+    cases hc : s.b.closed
+    · right
+      cases hp : s.toB with
+      | nil => rfl
+      | cons x xs => exact absurd ⟨hc, by rw [hp]; simp⟩ this
+    · left; rfl
+  have sDelA : s.a.closed = true ∨ s.toA = [] := by
+    have := hst (.deliverA s.toA.length)
+    simp only [Var.Enabled, List.take_length] at this
+    cases hc : s.a.closed
+    · right
+      cases hp : s.toA with
+      | nil => rfl
+      | cons x xs => exact absurd ⟨hc, by rw [hp]; simp⟩ this
+    · left; rfl
+  have sEofB : s.a.closed = true → s.b.closed = true := by
+    intro hac
+    cases hc : s.b.closed
+    · have hp : s.toB = [] := by
+        rcases sDelB with h | h
+        · rw [hc] at h; cases h
+        · exact h
+      exact absurd ⟨hac, hp, hc⟩ (hst .eofB)
+    · rfl
+  have sEofA : s.b.closed = true → s.a.closed = true := by
+    intro hbc
+    cases hc : s.a.closed
+    · have hp : s.toA = [] := by
+        rcases sDelA with h | h
+        · rw [hc] at h; cases h
+        · exact h
+      exact absurd ⟨hbc, hp, hc⟩ (hst .eofA)
+    · rfl
+  by_cases hao' : s.a.closed = true
+  · exact ⟨hao', sEofB hao'⟩
+  have hao : s.a.closed = false := by simpa using hao'
+  have hbo : s.b.closed = false := by
+    cases hb' : s.b.closed
+    · rfl
+    · have := sEofA hb'; rw [hao] at this; cases this
+  exfalso
+  have txA : s.a.txSrc = 0 := by rcases sPumpA with h | h; (rw [hao] at h; cases h); exact h
+  have txB : s.b.txSrc = 0 := by rcases sPumpB with h | h; (rw [hbo] at h; cases h); exact h
+  have pB : s.toB = [] := by rcases sDelB with h | h; (rw [hbo] at h; cases h); exact h
+  have pA : s.toA = [] := by rcases sDelA with h | h; (rw [hao] at h; cases h); exact h
+  obtain ⟨pAB, rB⟩ := quiet_wire s.a s.b s.toB ha hb hw.1 hi.wireB pB hao hbo txA
+  obtain ⟨pBA, rA⟩ := quiet_wire s.b s.a s.toA hb ha hw.2 hi.wireA pA hbo hao txB
+  -- an endpoint in termination is in a session, so its idle source is not busy-waiting
+  have pqOf : ∀ e : Ep, EpAll e → e.inTerm = true → (¬ (0 < e.pqSources ∧ (e.closed = true ∨ e.inSess = true ∨ e.txTmp ≠ none))) →
+      e.pqSources = 0 := by
+    intro e he ht hne
+    obtain ⟨P, hP⟩ := he.inv.tx
+    have hsess : e.inSess = true := hP.term ht
+    cases hn : e.pqSources with
+    | zero => rfl
+    | succ k => exact absurd ⟨by omega, Or.inr (Or.inl hsess)⟩ hne
+  have hqa := hst (.atA .procQueue)
+  have hqb := hst (.atB .procQueue)
+  simp only [Var.Enabled] at hqa hqb
+  rcases hterm with ht | ht
+  · obtain ⟨gb, tb⟩ := term_reaches s.a s.b ha hb pAB ht
+    obtain ⟨ga, _⟩ := term_reaches s.b s.a hb ha pBA tb
+    have := quiet_not_open s.a s.b ha hb pAB pBA rA hw.2 hbo (pqOf _ ha ht hqa) txA (pqOf _ hb tb hqb) txB ht ga tb nokaB
+    rw [hao] at this; cases this
+  · obtain ⟨ga, ta⟩ := term_reaches s.b s.a hb ha pBA ht
+    obtain ⟨gb, _⟩ := term_reaches s.a s.b ha hb pAB ta
+    have := quiet_not_open s.b s.a hb ha pBA pAB rB hw.1 hao (pqOf _ hb ht hqb) txB (pqOf _ ha ta hqa) txA ht gb ta nokaA
+    rw [hbo] at this; cases this
+
+/-- **Termination always finishes, within a bounded number of steps and without further user action.**
+    Whatever happened before (`sch`: any calls, timers, chunking, on both sides), once termination has
+    been requested or answered by either side and only internal events happen from then on (`int`),
+    there are at most `Var.mu` of them, and when none is enabled any more both endpoints have closed
+    the connection. (Keepalive-free runs, as for `C09_no_deadlock_partial`.) -/
+theorem C09_always_finishes (cfgA cfgB : Cfg) (sch int : List SysEv)
+    (a1 : 0 < cfgA.segInit) (a2 : cfgA.privExt = false) (a3 : 0 < cfgA.segMru)
+    (b1 : 0 < cfgB.segInit) (b2 : cfgB.privExt = false) (b3 : 0 < cfgB.segMru)
+    (hpas : ¬ (cfgA.passive = true ∧ cfgB.passive = true))
+    (hwf : ∀ pre, pre <+: sch ++ int → SysWF (runSys (initSys cfgA cfgB) pre))
+    (hs : ∀ ev ∈ sch, ev.sendOK)
+    (hen : Var.EnabledRun (runSys (initSys cfgA cfgB) sch) int) :
+    let s0 := runSys (initSys cfgA cfgB) sch
+    let s := runSys (initSys cfgA cfgB) (sch ++ int)
+    int.length ≤ Var.mu s0
+    ∧ (Var.Stuck s → (s.a.inTerm = true ∨ s.b.inTerm = true) →
+        (∀ m ∈ s.a.emitted, m ≠ .keepalive) → (∀ m ∈ s.b.emitted, m ≠ .keepalive) →
+        s.a.closed = true ∧ s.b.closed = true) := by
+  intro s0 s
+  refine ⟨?_, ?_⟩
+  · have := C09_bounded_steps cfgA cfgB sch int a1 a2 a3 b1 b2 b3 hpas hwf hs hen
+    show int.length ≤ Var.mu (runSys (initSys cfgA cfgB) sch)
+    omega
+  · have hs' : ∀ ev ∈ sch ++ int, ev.sendOK := by
+      intro ev hev
+      rcases List.mem_append.mp hev with h | h
+      · exact hs ev h
+      · exact Var.enabledRun_sendOK _ _ hen ev h
+    exact C09_stuck_closed cfgA cfgB (sch ++ int) a1 a2 a3 b1 b2 b3 hwf hs'
+
+/-! non-vacuity of `C09_always_finishes`: A asks to terminate in the middle of a transfer (2 of 3 octets
+    segmented) while B has a bundle queued and not started; 23 enabled internal events later nothing is
+    enabled, both sides are closed, A's transfer was delivered and acknowledged, and the variant went
+    from 1832 to 0 -/
+namespace ExampleBound
+def sch : List SysEv := Example.sched.take 13 ++ [.atB (.send [7, 7, 7, 7, 7]), .atA (.terminate 0)]
+def int : List SysEv :=
+  [.atA (.pump 10240), .atA (.pump 10240), .atA (.pump 10240), .atA (.pump 10240), .atA (.pump 10240),
+   .atB (.pump 10240), .atB (.pump 10240), .atB (.pump 10240), .deliverB 100,
+   .atB (.pump 10240), .atB (.pump 10240), .atB (.pump 10240), .deliverA 100, .atA .procQueue,
+   .atA (.pump 10240), .atA (.pump 10240), .atA (.pump 10240), .deliverB 100,
+   .atB (.pump 10240), .atB (.pump 10240), .deliverA 100, .atA .procQueue, .atB .procQueue]
+
+example : (List.range ((sch ++ int).length + 1)).all
+    (fun k => decide (SysWF (runSys (initSys Example.cfgA Example.cfgB) ((sch ++ int).take k)))) = true := by decide +kernel
+
+example : let s0 := runSys (initSys Example.cfgA Example.cfgB) sch
+    s0.a.txTmp = some (⟨1, [1, 2, 3]⟩, 2) ∧ s0.a.inTerm = true ∧ s0.b.txPendStart = [⟨1, [7, 7, 7, 7, 7]⟩]
+    ∧ Var.mu s0 = 1832 ∧ Var.EnabledRun s0 int := by decide +kernel
+
+example : let s := runSys (initSys Example.cfgA Example.cfgB) (sch ++ int)
+    s.a.closed = true ∧ s.b.closed = true ∧ Var.mu s = 0 ∧ s.a.successLog = [1] ∧ s.b.rxLog = [(1, [1, 2, 3])]
+    ∧ s.b.txPendStart = [] ∧ (s.a.emitted ++ s.b.emitted).all (fun m => m != .keepalive) = true
+    ∧ (Var.cands.all fun ev => !decide (Var.Enabled s ev)) = true := by decide +kernel
+end ExampleBound
 
 /-! ### the agent over several contacts (tcpcl/agent.py) -/
 
